@@ -37,6 +37,10 @@ ION_STRINGS = [
     "{[#A]|3}.{#A=[$]CC[$][N+](C)(C)C.[Cl-]}",
     "{[#A][#B]}.{#A=[$]CC[$][$],#B=[$]C[O-].[Na+]}",
     "{[#A]}.{#A=[NH4+].[OH-]}",
+    # a virtual (fragment-less) site written before / between the real nodes
+    "{[#VS].[#ET][#OH]}.{#ET=[$]CC,#OH=[$]O}",
+    "{[#ET]1.[#VS].[#OH]1}.{#ET=[$]CC,#OH=[$]O}",
+    "{[#A][#VS].[#B]}.{#A=[$]CC[$],#B=[$]N}",
 ]
 
 def generate(run_seed, prop, tier="quick"):
@@ -53,6 +57,7 @@ def generate(run_seed, prop, tier="quick"):
                "edge": rng.choice([0.0, 0.0, 0.05, 0.2]) if mode == "owned" else 0.0}
     faults = {f: rng.random() < 0.55 for f in ("abort", "foreign", "clock", "cotenant", "again", "noseed", "ownparse", "scribble")}
     ops = []
+    ctor_choice = rng.choice(["from_string", "from_string", "shared_dict"])
     # seeds include the values a careless truthiness or width test would mishandle
     seeds = [rng.choice([0, 0, 1, 42, 2 ** 31 - 1, 2 ** 32, 2 ** 64 + 5, rng.randrange(10 ** 9)]) for _ in range(3)]
     n_ops = rng.randint(2, 6)
@@ -77,6 +82,8 @@ def generate(run_seed, prop, tier="quick"):
             ops.append({"op": "co_resolve", "cfg": cfg})
         elif faults["ownparse"] and rng.random() < 0.6:
             ops.append({"op": "own_parse_edit", "cfg": cfg, "how": rng.choice(["rebuild_h", "rebuild_h", "attrs", "clear_bonding"])})
+        elif ctor_choice == "shared_dict" and faults["ownparse"] and rng.random() < 0.5:
+            ops.append({"op": "edit_template", "cfg": cfg})
         elif faults["ownparse"]:
             ops.append({"op": "helper_call", "how": rng.choice(["compute_mass_plain", "rebuild_h_plain", "both"]),
                         "smiles": rng.choice(["CCO", "c1ccccc1C", "CC(=O)[O-]", "C#N"])})
@@ -86,7 +93,7 @@ def generate(run_seed, prop, tier="quick"):
     firsts = [o for o in ops if o["op"] == "cs" and not o.get("abort_at")]
     if firsts:
         ops.append(dict(rng.choice(firsts)))
-    ctor = rng.choice(["from_string", "from_string", "shared_dict"])
+    ctor = ctor_choice
     scenario = {"family": "sampler", "prop": prop, "run_seed": run_seed, "configs": configs, "mode": mode, "ctor": ctor,
                 "entropy": entropy, "ops": ops, "faults_enabled": sorted(k for k, v in faults.items() if v)}
     if prop == "C09":
@@ -469,10 +476,37 @@ def run_history(scenario, only=None):
     last_molecule = {}
 
     def templates_for(idx):
+        if sc.get("ctor") == "shared_dict" and idx in shared_dicts:
+            return shared_dicts[idx]
         if idx not in parsed:
             cfg = sc["configs"][idx]
             parsed[idx] = read_fragments(cfg["string"], all_atom=cfg["all_atom"])
         return parsed[idx]
+
+    edited = set()
+
+    def _apply_template_edit(idx):
+        cfg = sc["configs"][idx]
+        if sc.get("ctor") != "shared_dict":
+            return
+        if idx not in shared_dicts:
+            shared_dicts[idx] = read_fragments(cfg["string"], all_atom=cfg["all_atom"])
+        lib = shared_dicts[idx]
+        for name in sorted(lib):
+            graph = lib[name]
+            for node in sorted(graph.nodes):
+                data = graph.nodes[node]
+                if cfg["all_atom"]:
+                    plain = data.get("element") == "C" and not data.get("aromatic") and not data.get("charge") and \
+                        all(graph.edges[node, nb].get("order", 1) == 1 for nb in graph[node])
+                    if plain:
+                        data["element"] = "Si"
+                        edited.add(idx)
+                        return
+                elif not str(data.get("atomname", "")).endswith("x"):
+                    data["atomname"] = str(data.get("atomname")) + "x"
+                    edited.add(idx)
+                    return
 
     def construct(idx, seed):
         cfg = sc["configs"][idx]
@@ -513,7 +547,7 @@ def run_history(scenario, only=None):
             masses = cfg["fragment_masses"] or {t["name"]: t.get("mass", 1.0) for t in cfg["templates"]}
         masses = dict(masses)
         _guard(check_molecule, mol, cfg, templates_for(idx), masses, cfg["target"], cfg["start_fragment"], found, stats)
-        if judge_masses and cfg["all_atom"] and not cfg["fragment_masses"]:
+        if judge_masses and cfg["all_atom"] and not cfg["fragment_masses"] and idx not in edited:
             for tmpl in cfg["templates"]:
                 got = masses.get(tmpl["name"])
                 if got is None or abs(got - tmpl["mass"]) > 1e-3 * max(1.0, tmpl["mass"]):
@@ -528,6 +562,8 @@ def run_history(scenario, only=None):
 
     for seq, op in enumerate(sc["ops"]):
         if only is not None and seq != only:
+            if op["op"] == "edit_template" and seq < only:
+                _apply_template_edit(op["cfg"])     # part of the input state of the referenced op
             continue
         event = {"seq": seq, "op": op["op"]}
         inj = None
@@ -572,6 +608,11 @@ def run_history(scenario, only=None):
                 event["out"] = "ok"
             elif kind == "clock_jump":
                 clock.jump(op["delta"])
+                event["out"] = "ok"
+            elif kind == "edit_template":
+                # the owner of the shared fragment dict edits a template between samplings: every sampler built
+                # from the dict (and every further sample) must use the template as it is now
+                _apply_template_edit(op["cfg"])
                 event["out"] = "ok"
             elif kind == "scribble_last":
                 # the caller owns what sample() returned and edits it in place
@@ -717,7 +758,7 @@ def execute(scenario):
     refs = {}
     for seq, op in enumerate(sc["ops"]):
         if op["op"] in ("cs", "cs_none") and not op.get("abort_at"):
-            key = jdump(op)
+            key = jdump([op, [k for k, o in enumerate(sc["ops"][:seq]) if o["op"] == "edit_template"]])
             if key not in refs:
                 solo = fork_call(run_history, (sc, seq), timeout=300)
                 refs[key] = solo["events"][0]
@@ -767,6 +808,8 @@ def execute(scenario):
             stats["fault:cotenant:fired"] = stats.get("fault:cotenant:fired", 0) + 1
         if ev["op"] == "scribble_last" and ev.get("out") == "ok":
             stats["fault:scribble:fired"] = stats.get("fault:scribble:fired", 0) + 1
+        if ev["op"] == "edit_template":
+            stats["fault:template-edited-between-samplings:fired"] = stats.get("fault:template-edited-between-samplings:fired", 0) + 1
         if ev["op"] == "helper_call":
             stats["fault:foreign-helper-call:fired"] = stats.get("fault:foreign-helper-call:fired", 0) + 1
         if ev["op"] == "own_parse_edit":
